@@ -364,6 +364,8 @@ var pkScenarios = map[string]map[string]pkProg{
 	"putT_get":      {"p1": {"put", "w1", true}, "g1": {"get", "", false}},
 	"put_put":       {"p1": {"put", "w1", false}, "p2": {"put", "w2", false}},
 	"put_put_get":   {"p1": {"put", "w1", false}, "p2": {"put", "w2", false}, "g1": {"get", "", false}},
+	"reput_put":     {"p1": {"put", "w0", false}, "p2": {"put", "w2", false}},
+	"reput_put_get": {"p1": {"put", "w0", false}, "p2": {"put", "w2", false}, "g1": {"get", "", false}},
 	"putT_putT_get": {"p1": {"put", "w1", true}, "p2": {"put", "w2", true}, "g1": {"get", "", false}},
 	"put_del":       {"p1": {"put", "w1", false}, "d1": {"del", "", false}},
 	"del_get":       {"d1": {"del", "", false}, "g1": {"get", "", false}},
@@ -618,6 +620,9 @@ func C05(c *core.Ctx, replay string) {
 		// writes of equal length (nothing but the bytes distinguishes them)
 		{name: "put_get_get", initPresent: true, sample: c.Pick(90, 300), same: true},
 		{name: "put_put_get", initPresent: true, sample: c.Pick(90, 300), same: true},
+		// a re-upload of exactly the stored object (same bytes, same attributes) next to a different one
+		{name: "reput_put", initPresent: true, sample: c.Pick(60, 400), fine: true},
+		{name: "reput_put_get", initPresent: true, sample: c.Pick(30, 300), fine: true},
 		// two first-time uploads of a key (nothing at the name when either is admitted)
 		{name: "put_put", initPresent: false, sample: c.Pick(60, 400), fine: true},
 	}
